@@ -93,6 +93,9 @@ def confirm(binary, prop, case, key, budget=40, extra_sig=None):
                 time.sleep(3)
                 c2 = cpu_ticks(p.pid)
             stack = gdb_stack(p.pid) if p.poll() is None else ""
+            if stack.startswith("(gdb failed") and p.poll() is None:
+                # a loaded machine: reading the symbols of a debug binary can take minutes; once more, with patience
+                stack = gdb_stack(p.pid, timeout=360)
             still = p.poll() is None
             if still and c1 is not None and c2 is not None:
                 frame, waiting = blocked_frame(stack)
